@@ -31,6 +31,9 @@ ENTRY_GETTERS = {"getselector", "getname", "gethost", "geturl", "getea", "getmim
 class Taint:
     """Request taint: mention-based fixpoint over attributes, locals and parameters."""
 
+    ENTRY_SOURCES = True   # values read back from entries (names, selectors) count as request-shaped
+    READ_SOURCES = False   # results of file reads count as sources (content taint, see ContentTaint)
+
     def __init__(self, ctx, eff: Effects):
         self.ctx = ctx
         self.eff = eff
@@ -39,6 +42,9 @@ class Taint:
         prog = ctx.prog
         pb = ctx.cls("protocols.base.BaseGopherProtocol")
         hb = ctx.cls("handlers.base.BaseHandler")
+        if not self.ENTRY_SOURCES:
+            self.attrs = set()
+            pb = hb = None
         if pb is not None:
             for P in prog.subclasses(pb):
                 init = P.methods.get("__init__")
@@ -180,7 +186,9 @@ class Taint:
         if isinstance(expr, ast.Call):
             f = expr.func
             if isinstance(f, ast.Attribute):
-                if f.attr in ENTRY_GETTERS and dotted(f.value) != "self" and not (dotted(f.value) or "").startswith("self.config"):
+                if self.READ_SOURCES and f.attr in ("readline", "readlines", "read") and not (dotted(f.value) or "").startswith("self.rfile"):
+                    return True
+                if self.ENTRY_SOURCES and f.attr in ENTRY_GETTERS and dotted(f.value) != "self" and not (dotted(f.value) or "").startswith("self.config"):
                     return True
                 if f.attr in self.STR_METHODS and rec(f.value):
                     return True
@@ -223,6 +231,14 @@ class Taint:
                                 return True
             return False
         return False
+
+
+class ContentTaint(Taint):
+    """Content taint: text read from files of the content tree (link files, sidecars, gophermaps, mail folders)
+    and what is sliced, split or stripped out of it."""
+
+    ENTRY_SOURCES = False
+    READ_SOURCES = True
 
 
 # -------------------------------------------------------------------- discharge
@@ -328,7 +344,7 @@ def _digit_fact(facts: List[Fact], evs, text: str) -> bool:
     return False
 
 
-def discharge(ctx, site: Site, local_paths, acc, use_accept: bool) -> Tuple[bool, str, bool]:
+def discharge(ctx, site: Site, local_paths, acc, use_accept: bool, taint=None) -> Tuple[bool, str, bool]:
     """-> (ok, reason, nontrivial)"""
     func = site.func
     exc = RAISES[site.kind]
@@ -341,7 +357,7 @@ def discharge(ctx, site: Site, local_paths, acc, use_accept: bool) -> Tuple[bool
     if not local_paths:
         return True, "unreachable on every feasible path", False
     worst = None
-    taint = ctx._cache.get("taint")
+    taint = taint if taint is not None else ctx._cache.get("taint")
     any_tainted = False
     for facts, evs, defs in local_paths:
         subject = expand(site.subject, func, defs) if site.subject is not None else ""
@@ -449,14 +465,15 @@ def _digit_arg(arg, func, defs=None) -> bool:
     return isinstance(hi, int) and hi <= INT_MAX_DIGITS
 
 
-def partial_op_obligations(ctx, rep, rule: str, funcs: List[Tuple[object, object]], kinds=None):
+def partial_op_obligations(ctx, rep, rule: str, funcs: List[Tuple[object, object]], kinds=None, content=False):
     prog = ctx.prog
     eff = ctx._cache.get("eff") or Effects(prog, ctx.resolver)
     ctx._cache["eff"] = eff
-    taint = ctx._cache.get("taint")
+    tkey = "ctaint" if content else "taint"
+    taint = ctx._cache.get(tkey)
     if taint is None:
-        taint = Taint(ctx, eff)
-        ctx._cache["taint"] = taint
+        taint = (ContentTaint if content else Taint)(ctx, eff)
+        ctx._cache[tkey] = taint
     n_sites = 0
     n_untainted = 0
     seen = set()
@@ -482,10 +499,10 @@ def partial_op_obligations(ctx, rep, rule: str, funcs: List[Tuple[object, object
         acc = accept_paths(prog, ctx.resolver, concrete) if (use_accept and concrete is not None) else None
         for s in sites:
             n_sites += 1
-            ok, why, nontrivial = discharge(ctx, s, paths.get(id(s.node)), acc, use_accept)
+            ok, why, nontrivial = discharge(ctx, s, paths.get(id(s.node)), acc, use_accept, taint)
             owner = f"{concrete.name}:" if concrete is not None and func.cls is not None and concrete is not func.cls else ""
             rep.add(rule, f"{s.kind} {owner}{func.qualname}: {s.text[:70]}", ok, ctx.where(func, s.node),
-                    (f"{RAISES[s.kind]} possible for some request: `{s.text}` - {why}" if not ok else why),
+                    (f"{RAISES[s.kind]} possible for some {'file content' if content else 'request'}: `{s.text}` - {why}" if not ok else why),
                     key=f"{rule}|{s.kind}|{func.qualname}|{s.text}", nontrivial=nontrivial)
     rep.extra.setdefault("partial_op_sites", {})[rule] = n_sites
 
@@ -562,6 +579,7 @@ def check(ctx, rep):
     rep.rule("R03d", "history independence: persistent writes are exactly the two cache files; module-level state is only lazily initialised from configuration, never mutated per request", floor=2)
     rep.rule("R03f", "the stat performed on a still unfiltered selector catches ValueError (embedded NUL) as well as OSError", floor=2)
     rep.rule("R03g", "status lines echo request text only after line breaks were collapsed", floor=2)
+    rep.rule("R03i", "partial operations on text read from content files (link files, gophermaps, sidecars): index, unpack, int() are guarded", floor=8)
     rep.rule("R03e", "mailbox constructors (fail with mailbox.Error, not OSError) are guarded or converted", floor=2)
     rep.assume("served content (gophermaps, link files, mailboxes, archives) is well formed: partial operations on file content are not tracked")
 
@@ -601,7 +619,11 @@ def check(ctx, rep):
                 if isinstance(call.func, ast.Attribute) and call.func.attr in ("gethandler", "getentry", "prepare") and target.kind == "repo":
                     return ["FileNotFound", "OSError"]
                 return []
-            w = Walker(prog, ctx.resolver, raise_points=rp, inline=lambda fn, t, d: t.bound_cls is not None and fn.name in ("handle_input",))
+            # helpers of the protocol class that carry part of the reply (status line, body) are walked with handle()
+            w = Walker(prog, ctx.resolver, raise_points=rp,
+                       inline=lambda fn, t, d: d < 3 and t.bound_cls is not None and fn.module is h.module
+                       and fn.name not in ("write_status", "writedir", "gethandler", "renderobjinfo", "log", "adjust_mimetype", "adjustmimetype")
+                       and any(isinstance(x, ast.Attribute) and x.attr in ("write_status", "writedir", "write") for x in ast.walk(fn.node)))
             for p in w.run(h, P):
                 if p.kind == "raise":
                     continue
@@ -671,6 +693,19 @@ def check(ctx, rep):
 
     pregate_stat_obligations(ctx, rep, "R03f", eff)
 
+    # ------------------------------------------------------------------ R03i
+    content_funcs = []
+    for H in ctx.handler_classes():
+        for c in prog.mro(H):
+            for m in c.methods.values():
+                if prog.resolve_method(H, m.name) is m and (m, m.cls) not in content_funcs:
+                    content_funcs.append((m, m.cls))
+    ge_ = ctx.cls("gopherentry.GopherEntry")
+    if ge_ is not None:
+        content_funcs.extend((m, ge_) for m in ge_.methods.values())
+    content_funcs = [(m, C) for m, C in content_funcs if any(isinstance(x, ast.Attribute) and x.attr in ("readline", "readlines", "read") for x in ast.walk(m.node))]
+    partial_op_obligations(ctx, rep, "R03i", content_funcs, kinds=("P1", "P2", "P3"), content=True)
+
     # ------------------------------------------------------------------ R03g
     pb_ = ctx.cls("protocols.base.BaseGopherProtocol")
     for P in ctx.protocol_classes():
@@ -730,6 +765,24 @@ def check(ctx, rep):
                             "" if ok else "raises mailbox.NoSuchMailboxError (not an OSError) when the mailbox does not exist; "
                             "nothing converts it into a not-found reply and canhandlerequest does not check existence",
                             key=f"R03e|{m.qualname}|{norm(call.func)}")
+    # zipfile.ZipFile() raises zipfile.BadZipFile (not an OSError) for an archive is_zipfile() accepted but that is damaged
+    for f in prog.all_functions():
+        if not f.module.name.startswith("pygopherd.handlers"):
+            continue
+        for call, t in eff.calls_of(f, f.cls):
+            if t.kind == "ext" and t.ext == "zipfile.ZipFile":
+                ok = False
+                for tr in enclosing_tries(f.node, call):
+                    for hd in tr.handlers:
+                        if catches(hd, "BadZipFile") or catches(hd, "Exception"):
+                            # the handler must not let it go on as BadZipFile
+                            w_ = Walker(prog, ctx.resolver)
+                            hp = w_.run_body(hd.body, f, f.cls)
+                            if all(p.kind != "raise" or str(p.value).split(".")[-1] in ("OSError", "IOError", "FileNotFound", "FileNotFoundError") for p in hp):
+                                ok = True
+                rep.add("R03e", f"{f.qualname}: {norm(call)[:60]}", ok, ctx.where(f, call),
+                        "" if ok else "raises zipfile.BadZipFile (not an OSError) for a damaged archive that passed is_zipfile(); nothing converts it "
+                        "into the protocol's error reply, and a directory containing the archive cannot be listed", key=f"R03e|{f.qualname}|zipfile.ZipFile")
 
 
 def pregate_functions(ctx, eff):
